@@ -158,6 +158,7 @@ func proofFacts() (proofOK, keyOK core.CondFact) {
 
 func c02r2(c *core.Ctx) {
 	p := c.P
+	wrapperErrors(c, "SetupServerController", tSetupCtrl)
 	m := buildStepModel(p, "hap/pair", "SetupServerController", tSetupCtrl)
 	if m == nil {
 		c.Undecided("SetupServerController.Handle", token.NoPos, "not found")
